@@ -7,6 +7,7 @@ CONSTANTS
   NVals = 2
   ShiftMag = {1, 2}
   FreeB = FALSE
+  NPart = 12
 INIT MCInit
 NEXT MCNext
 INVARIANTS NoOverlap NoTopStored SizesPositive ClearTopNoop ObserversAgree MergeAlgebra MergeClause CountCases ReadClauses
